@@ -37,6 +37,7 @@ public:
 };
 
 static shared_ptr<ProjDataInMemory> data;
+static bool with_prior = false;
 static shared_ptr<target_type> run(const target_type& start, int S, int first, int last, float alpha, float gamma)
 {
   shared_ptr<PoissonLogLikelihoodWithLinearModelForMeanAndProjData<target_type>> obj(new PoissonLogLikelihoodWithLinearModelForMeanAndProjData<target_type>);
@@ -45,6 +46,11 @@ static shared_ptr<target_type> run(const target_type& start, int S, int first, i
   pm->set_restrict_to_cylindrical_FOV(false);
   shared_ptr<ProjectorByBinPair> pp(new ProjectorByBinPairUsingProjMatrixByBin(pm));
   obj->set_projector_pair_sptr(pp);
+  if (with_prior)
+    {
+      shared_ptr<GeneralisedPrior<target_type>> prior(new QuadraticPrior<float>(false, 0.5F));
+      obj->set_prior_sptr(prior);
+    }
   OSSPS r;
   r.set_objective_function_sptr(obj);
   r.set_input_data(data);
@@ -164,8 +170,10 @@ int main(int argc, char** argv)
           return rc;
         }
       struct { int S, K, k; float alpha, gamma; } cfg[] = { { 4, 10, 5, 1.F, 0.1F }, { 2, 7, 3, 1.5F, 0.5F }, { 1, 4, 2, 1.F, 0.3F }, { 4, 9, 4, 1.F, 0.F } };
+      for (int pass = 0; pass < 2; ++pass)
       for (auto& c : cfg)
         {
+          with_prior = pass == 1; // second pass: quadratic prior (the image is completely inside the field of view: every voxel is identifiable)
           shared_ptr<target_type> whole = run(*start, c.S, 1, c.K, c.alpha, c.gamma);
           shared_ptr<target_type> part = run(*start, c.S, 1, c.k, c.alpha, c.gamma);
           shared_ptr<target_type> resumed = run(*part, c.S, c.k + 1, c.K, c.alpha, c.gamma);
@@ -173,8 +181,8 @@ int main(int argc, char** argv)
           const double d = maxdiff(*whole, *resumed, mx);
           if (d > 1e-5 * std::max(mx, 1e-20))
             {
-              std::printf("CONFIRMED OSSPS %d subsets, alpha %g, gamma %g: %d sub-iterations resumed after sub-iteration %d differ from the uninterrupted run: max abs difference %g (image max %g)\n",
-                          c.S, c.alpha, c.gamma, c.K, c.k, d, mx);
+              std::printf("CONFIRMED OSSPS %d subsets, alpha %g, gamma %g, %s: %d sub-iterations resumed after sub-iteration %d differ from the uninterrupted run: max abs difference %g (image max %g)\n",
+                          c.S, c.alpha, c.gamma, with_prior ? "quadratic prior" : "no prior", c.K, c.k, d, mx);
               return 1;
             }
         }
